@@ -49,7 +49,8 @@ def expected_for(o, prefix, prog):
     first_ref = next((i for i, t in enumerate(toks) if isinstance(t, fmodel.Ref)), None)
     if o.role == "member":
         ti = o.tok_i
-        base = toks[ti - 2] if ti >= 2 and toks[ti - 1] == "%" else None
+        bi = fmodel.chain_prev(toks, ti)
+        base = toks[bi] if bi is not None else None
         if not isinstance(base, fmodel.Ref) or st_.kind not in ("exec", "open-construct"):
             return None
         bt = base.ent.typ[1] if isinstance(base.ent.typ, tuple) else None
@@ -57,10 +58,8 @@ def expected_for(o, prefix, prog):
             return None
         mem = bt.all_members()
         # the chain that starts a CALL statement: only type-bound procedures are callable
-        chain_start = ti
-        while chain_start >= 2 and toks[chain_start - 1] == "%":
-            chain_start -= 2
-        if is_call_stmt and chain_start == first_ref and (ti + 1 >= len(toks) or toks[ti + 1] != "%"):
+        chain_start = fmodel.chain_root_index(toks, ti)
+        if is_call_stmt and chain_start == first_ref and not fmodel.chain_continues(toks, ti):
             req = {n for n, m in mem.items() if n.startswith(p) and m.kind == "binding"}
             opt = {n for n, m in mem.items() if n.startswith(p) and m.kind != "binding"}
             return "call-member", req, opt
@@ -120,11 +119,8 @@ def alias_involved(scope, ent):
 
 def chain_root(o):
     """The first object of the % chain the occurrence o belongs to."""
-    k = o.tok_i
     toks = o.stmt.toks
-    while k >= 2 and toks[k - 1] == "%":
-        k -= 2
-    return toks[k]
+    return toks[fmodel.chain_root_index(toks, o.tok_i)]
 
 
 def alias_visible_from(scope, ent):
